@@ -378,6 +378,55 @@ func runC04(ctx *h.Ctx) int {
 		}
 		k.Nontrivial("repdef", what, len(prog.Items))
 	})
+	// big scripts: three-digit sub-labels and two-digit hoisted text / movement indices
+	ctx.RunCases("big-scripts", ctx.N(24, 400), func(k *h.Case) {
+		p := profC01()
+		p.MaxDepth, p.MaxLen, p.PTextArg, p.PMovesArg = 2, 2, 0.5, 0.2
+		p.TextPool = nil
+		p.PCall = 0 // (the hoisting oracle finds a command through its unique name)
+		g := spec.NewGen(k.R, p)
+		sc := &spec.Script{ID: g.Prog.NewID(), Name: g.Name("ScrBig"), Body: &spec.Block{ID: g.Prog.NewID()}}
+		n := 45 + k.R.IntN(30)
+		for i := 0; i < n; i++ {
+			// distinct texts, so that the hoisted indices keep counting
+			c := g.Cmd()
+			c.Args = append(c.Args, &spec.Arg{Text: &spec.TextVal{ID: g.Prog.NewID(), Parts: []string{fmt.Sprintf("text number %d", i)}}})
+			body := &spec.Block{ID: g.Prog.NewID(), Stmts: []spec.Stmt{&spec.CmdStmt{Cmd: c}}}
+			var st spec.Stmt = &spec.If{ID: g.Prog.NewID(), Arms: []*spec.Arm{{Cond: g.LeafCond(), Body: body}}}
+			if k.R.IntN(4) == 0 {
+				st = &spec.While{ID: g.Prog.NewID(), Cond: g.LeafCond(), Body: body}
+			}
+			sc.Body.Stmts = append(sc.Body.Stmts, st)
+		}
+		g.Prog.Items = append(g.Prog.Items, sc)
+		prog := g.Prog
+		src := spec.Source(prog)
+		k.SetSource(src)
+		for _, opt := range []bool{true, false} {
+			res := h.Compile(src, optsOf(prog, opt))
+			k.Count("evaluations", 1)
+			if !res.OK() {
+				k.Count("rejected", 1)
+				rejectedValid(k, prog, res, false)
+				return
+			}
+			k.Count("accepted", 1)
+			tag := fmt.Sprintf("big script, optimize=%v", opt)
+			if !closedCheck(k, prog, res.Out, tag) {
+				return
+			}
+			if !hoistCheck(k, prog, res.Out, tag) {
+				return
+			}
+			if !vmCheck(k, prog, res.Out, vmCheckOpts{NStates: 6, Cands: g.Cands(), Optimize: opt, NoDecisionWalk: true}, tag) {
+				return
+			}
+			f := asm.Parse(res.Out)
+			k.Count("labels_in_big_scripts", int64(len(f.Labels)))
+		}
+		k.Count("big_scripts_checked", 1)
+		k.Nontrivial("big", n)
+	})
 	// what the binary leaves in its -o file (an existing, longer file is replaced) is the output the properties
 	// speak of
 	ctx.RunCases("cli-output-file", ctx.N(30, 400), func(k *h.Case) {
